@@ -36,6 +36,7 @@ type Module struct {
 	AllFuncs []*ssa.Function // functions (incl. anonymous) whose package is module-local, sorted by name
 	Folded   []Folded               // helpers introduced after the pinned commit and what folding did with them
 	Absorbed map[*ssa.Function]bool // helpers whose every use was folded into the callers
+	Renamed  map[string]*ssa.Function // anchor name (as in anchors/known_funcs.txt) → the function that replaced it
 }
 
 // goEnv pins the toolchain for `go list` (run by go/packages): the pre-installed go1.26.8, offline.
@@ -212,6 +213,20 @@ func (m *Module) Pos(p token.Pos) string {
 
 // Func resolves a function or method by package path and name: "pkgpath" + "Name", or "(*T).Name" / "T.Name".
 func (m *Module) Func(pkgPath, name string) *ssa.Function {
+	if fn := m.funcByName(pkgPath, name); fn != nil {
+		return fn
+	}
+	// renamed anchor (fold.go)
+	full := pkgPath + "." + name
+	if strings.HasPrefix(name, "(*") {
+		full = "(*" + pkgPath + "." + strings.TrimPrefix(name, "(*")
+	} else if strings.Contains(name, ".") {
+		full = "(" + pkgPath + "." + strings.Replace(name, ".", ").", 1)
+	}
+	return m.Renamed[full]
+}
+
+func (m *Module) funcByName(pkgPath, name string) *ssa.Function {
 	sp := m.SSAPkgs[pkgPath]
 	if sp == nil {
 		return nil
